@@ -5,6 +5,7 @@ From Coq Require Import List NArith Bool Arith Sorted.
 From Coq Require Import Strings.Byte.
 Require Import BS.Bytes BS.Common BS.Api BS.Layout BS.Format BS.FormatFacts BS.Spec BS.SpecStep.
 Require Import BS.FS BS.FSFacts BS.Meta BS.MetaFacts BS.Header BS.Reader BS.ReaderFacts BS.Index BS.Data BS.DataFacts BS.Seek BS.Series BS.SeriesFacts BS.ReadAllFacts BS.TotalFacts BS.ExtractFacts BS.OpenFacts BS.TornFacts BS.TornGenFacts BS.Sections BS.HistoryFacts.
+Require Import BS.RecoverFacts.
 Import ListNotations.
 
 
@@ -152,3 +153,13 @@ Print Assumptions C05_complete_lines.
 Check history_example.
 (* partial: payload sizes 0..3 with 0xFFFF words in a continuation slot (known finding D6) are outside the theorems;
    series with cache levels: C09. *)
+
+(* (F) the specification's side of C05: Layer F's recovery (Format.recover - the reader with which the judge decides which
+   lines a torn data file still holds) applied to the reference encoding of any well-formed list cut at ANY byte length
+   returns exactly the lines completely written before the cut - the maximal k with |encode (firstn k l)| <= c, the same k
+   the theorems about the model's open after a crash speak of - and the length of their encoding as the intact prefix *)
+Theorem C05_recovery_of_a_cut_encoding : forall p (l:list (N * list byte)) c, wf_series p l -> c <= length (encode p l) ->
+  exists k, k <= length l /\ length (encode p (firstn k l)) <= c /\ (k < length l -> c < length (encode p (firstn (S k) l)))
+    /\ recover p (firstn c (encode p l)) = Some (firstn k l, N.of_nat (length (encode p (firstn k l)))).
+Proof. exact recover_cut. Qed.
+Print Assumptions C05_recovery_of_a_cut_encoding.
